@@ -1772,7 +1772,8 @@ class SchemaValidator:
             ]
 
         for traversal_scope in to_pipeline_var.traversal_scopes:
-            if pipeline_scope.startswith(traversal_scope):
+            # is the current scope the traversal's scope or nested inside it?
+            if (pipeline_scope + ".").startswith(traversal_scope + "."):
                 return [
                     f"{self._context(f'{path}.to')}: cannot apply to variable within a scope that traverses it: {json.dumps(to_var_name)}"
                 ]
